@@ -131,7 +131,8 @@ struct Runner {
             t.MMIOWrite(0x20, (u16)((d.t0_mode << 2) | (d.t0_mu << 9) | (1 << 10)));
             if (d.t1_on) {
                 t.MMIOWrite(0x34, (u16)(d.scale ? 97 : 3)), t.MMIOWrite(0x36, 0);
-                t.MMIOWrite(0x30, (1 << 2) | (1 << 10));
+                // t1_on == 2: armed but paused - a paused timer holds its counter however time advances
+                t.MMIOWrite(0x30, (u16)((1 << 2) | (1 << 10) | (d.t1_on == 2 ? (1 << 8) | (1 << 9) : 0)));
             }
         }
         if (d.family == 1) {
@@ -379,12 +380,22 @@ inline std::vector<Desc> Family(bool thorough) {
                 for (u8 start : {0, 1, 4, 9})
                     for (u8 line : {0, 3, 4})
                         for (u8 hk : {0, 2})
-                            for (u8 t1 = 0; t1 < 2; ++t1) {
+                            for (u8 t1 = 0; t1 < 3; ++t1) {
                                 Desc d{};
                                 d.family = 0, d.main = main, d.hk = hk, d.enabled = 1, d.t0_mode = mode, d.t0_start = start;
                                 d.t0_line = line, d.t0_mu = 1, d.t1_on = t1, d.n = n;
                                 v.push_back(d);
                             }
+        // paused second timer next to every kind of idle / busy main line
+        for (u8 main = 0; main < 4; ++main)
+            for (u8 mode : {0, 1})
+                for (u8 start : {0, 2, 7})
+                    for (u8 line : {0, 4}) {
+                        Desc d{};
+                        d.family = 0, d.main = main, d.hk = 0, d.enabled = 1, d.t0_mode = mode, d.t0_start = start;
+                        d.t0_line = line, d.t0_mu = 1, d.t1_on = 2, d.n = n;
+                        v.push_back(d);
+                    }
         // family 0c / 1c: long horizon (x40): large fast-forward steps, timers and audio port expiring hundreds of cycles apart
         if (n == 36) {
             for (u8 main : {0, 2, 5})
@@ -392,7 +403,7 @@ inline std::vector<Desc> Family(bool thorough) {
                     for (u8 start : {0, 1, 5, 6})
                         for (u8 line : {0, 3})
                             for (u8 hk : {0, 2})
-                                for (u8 t1 = 0; t1 < 2; ++t1) {
+                                for (u8 t1 = 0; t1 < 3; ++t1) {
                                     Desc d{};
                                     d.family = 0, d.main = main, d.hk = hk, d.enabled = 1, d.t0_mode = mode, d.t0_start = start;
                                     d.t0_line = line, d.t0_mu = 1, d.t1_on = t1, d.n = n, d.scale = 1;
